@@ -1255,13 +1255,13 @@ func (s *Server) subscriptionsListen(ctx context.Context, req *SubscriptionsList
 		if err != nil {
 			return nil, err
 		}
-		defer s.unsubscribe(ctx, &UnsubscribeRequest{
+		defer s.unsubscribeListen(ctx, &UnsubscribeRequest{
 			Session: req.Session,
 			Params: &UnsubscribeParams{
 				URI:  uri,
 				Meta: req.Params.GetMeta(),
 			},
-		})
+		}, requestID)
 	}
 
 	ackParams := &SubscriptionsAcknowledgedParams{
@@ -1279,6 +1279,28 @@ func (s *Server) subscriptionsListen(ctx context.Context, req *SubscriptionsList
 	return &SubscriptionsListenResult{
 		Meta: Meta{MetaKeySubscriptionID: requestID.Raw()},
 	}, nil
+}
+
+// unsubscribeListen ends the resource subscription that the listen request
+// owner installed, unless a later listen of the same session has taken it over
+// (Unsubscribe directly followed by Subscribe: the new listen may be handled
+// before the old one's cancellation).
+func (s *Server) unsubscribeListen(ctx context.Context, req *UnsubscribeRequest, owner jsonrpc.ID) {
+	s.mu.Lock()
+	subscribedSessions := s.resourceSubscriptions[req.Params.URI]
+	if id, ok := subscribedSessions[req.Session]; ok && id != owner {
+		s.mu.Unlock()
+		return
+	}
+	delete(subscribedSessions, req.Session)
+	if len(subscribedSessions) == 0 {
+		delete(s.resourceSubscriptions, req.Params.URI)
+	}
+	s.mu.Unlock()
+	if s.opts.UnsubscribeHandler != nil {
+		_ = s.opts.UnsubscribeHandler(ctx, req)
+	}
+	s.opts.Logger.Info("resource unsubscribed", "uri", req.Params.URI, "session_id", req.Session.ID())
 }
 
 func (s *Server) allowedSubscriptions(want *NotificationSubscriptions) NotificationSubscriptions {
